@@ -202,3 +202,33 @@ func VH_C18_EmptyGroupingSurvivesReload_sym() {
 		vAssert("subgroup_listed", len(n.GetCategories([]string{"fresh"})) == 1)
 	}
 }
+
+func c18Try(fn func()) {
+	defer func() { recover() }()
+	fn()
+}
+
+// Requests whose path names something that is not there (a stale view after a bundle was deleted): the listing of
+// such a path is empty, and a post or delete addressed below it never touches a category the request did not name -
+// here the root category "cat", which has the same name as the last path component.
+func VH_C18_PathThroughMissingGrouping_sym() {
+	n, id1, id2, a1, a2 := c18Store()
+	sub := hotline.NewsCategoryListData15{Type: hotline.NewsBundle, Name: "kept", SubCats: map[string]hotline.NewsCategoryListData15{}, Articles: map[uint32]*hotline.NewsArtData{}}
+	n.ThreadedNews.Categories["kept"] = sub
+	var listed []hotline.NewsCategoryListData15
+	switch vChoice("request", 4) {
+	case 0:
+		c18Try(func() { listed = n.GetCategories([]string{"gone"}) })
+		vAssert("listing_below_missing_grouping_is_empty", len(listed) == 0)
+	case 1:
+		c18Try(func() { n.DeleteArticle([]string{"gone", "cat"}, id1, false) })
+	case 2:
+		c18Try(func() { n.PostArticle([]string{"gone", "cat"}, 0, hotline.NewsArtData{Title: "t", Poster: "p", Data: "d"}) })
+	default:
+		c18Try(func() { n.CreateGrouping([]string{"gone"}, "new", hotline.NewsCategory) })
+		vAssert("nothing_created_at_the_root_instead", len(n.ThreadedNews.Categories) == 2)
+	}
+	arts := n.ThreadedNews.Categories["cat"].Articles
+	vAssert("unnamed_category_keeps_exactly_its_articles", len(arts) == 2 && arts[id1] == a1 && arts[id2] == a2)
+	vAssert("unnamed_category_links_untouched", a1.NextArt == [4]byte{} && a2.NextArt == [4]byte{} && a1.PrevArt == [4]byte{} && a2.PrevArt == [4]byte{})
+}
